@@ -78,6 +78,11 @@ class Script:
         else:
             out, adv = TIMEOUT, 2  # script exhausted: every further query times out, the clock keeps moving
         Clock.now = Clock.now + adv
+        # make the outcome digit concrete on this path (one fork per kind) before building the reply untraced
+        for c in range(NOUT):
+            if out == c:
+                out = c
+                break
         if out == MALFORMED:
             raise dns.exception.FormError("scripted")
         if out == TRUNCATED:
